@@ -162,7 +162,7 @@ func (commander *Commander) exec(ctx context.Context, parameters Parameters, scr
 				WithPostings(result.Postings...).
 				WithMetadata(result.Metadata).
 				WithDate(script.Timestamp).
-				WithID(commander.nextTXID()).
+				WithID(commander.allocateTXID(parameters.DryRun)).
 				WithReference(script.Reference)
 
 			verifhook.Yield(ctx, "txid", "id", tx.ID, "dry", parameters.DryRun)
@@ -288,6 +288,17 @@ func (commander *Commander) nextTXID() *big.Int {
 	commander.lastTXID = ret
 
 	return ret
+}
+
+// allocateTXID returns the id the next transaction gets; a dry run is told the id without consuming it.
+func (commander *Commander) allocateTXID(dryRun bool) *big.Int {
+	if !dryRun {
+		return commander.nextTXID()
+	}
+	commander.mu.Lock()
+	defer commander.mu.Unlock()
+
+	return big.NewInt(0).Add(commander.lastTXID, big.NewInt(1))
 }
 
 func (commander *Commander) DeleteMetadata(ctx context.Context, parameters Parameters, targetType string, targetID any, key string) error {
